@@ -1579,9 +1579,12 @@ class NamedWorld:
         elif k == "cp":
             a, b = op[1], op[2]
             if a in self.files and a != b:
-                os.makedirs(os.path.dirname(self.fp(b)), exist_ok=True)
-                shutil.copy2(self.fp(a), self.fp(b))          # cp -p: bytes and times
-                self.files[b] = self.files[a]
+                try:
+                    os.makedirs(os.path.dirname(self.fp(b)), exist_ok=True)
+                    shutil.copy2(self.fp(a), self.fp(b))          # cp -p: bytes and times
+                    self.files[b] = self.files[a]
+                except OSError:
+                    pass                                           # not applicable in this state (dangling folder link, unreadable source): no-op
         elif k == "t":
             if op[1] in self.files:
                 st = os.stat(self.fp(op[1]))
